@@ -186,7 +186,14 @@ _ASCII_CATEGORIES = {
 def _all_chars() -> str:
     global _all_chars_cache
     if _all_chars_cache is None:
-        _all_chars_cache = ''.join(map(chr, range(MAXCP + 1)))
+        # chr(0) .. chr(MAXCP) in order; built from the UTF-32 code units (same string as ''.join(map(chr, range(MAXCP + 1))), much faster)
+        import sys
+        from array import array
+        units = array('I', range(MAXCP + 1))
+        if units.itemsize == 4:
+            _all_chars_cache = units.tobytes().decode('utf-32-le' if sys.byteorder == 'little' else 'utf-32-be', 'surrogatepass')
+        if _all_chars_cache is None or len(_all_chars_cache) != MAXCP + 1 or _all_chars_cache[0x1F600] != chr(0x1F600) or _all_chars_cache[0xD800] != chr(0xD800):
+            _all_chars_cache = ''.join(map(chr, range(MAXCP + 1)))
     return _all_chars_cache
 
 
